@@ -50,6 +50,12 @@ CHECKS = {
     "C15": ("exploration", "online trace-specification checker on a recording ProgressObserver + independent execution counters",
             "Held on the sampled runs: enter/exit bracketing, totals before running, per-thread/per-scope balance, completed==total after success, run/stale totals equal to independently counted executions, composite members received identical per-thread sequences.",
             "recording observer stamps under its own lock; scope = user scope + fully qualified function name", "3/C15"),
+    "C16": ("exploration", "weak-reference liveness monitor after gc.collect() at call starts and at logically quiescent states",
+            "Held on the sampled successful runs: every result whose consumers had all been fully processed (and that is not part of the output) was dead at the next checkpoint; everything was dead after run returned.",
+            "harness keeps only ids and weakrefs; consumers followed through implicit gather nodes", "3/C16"),
+    "C17": ("fault_enumeration", "real SIGINT (pthread_kill) at every call index + gate/quiescence protocol deciding 'interrupt handled' logically; thread census; deadlock detector; C08/C03/C05 oracles on the post-interrupt state",
+            "For each generated case every call index (start / steady-state / end position; quick tier: first, last and a seeded sample) received a real SIGINT: run raised KeyboardInterrupt, nothing started after the interrupt was proven handled, in-flight calls completed, all threads exited, observer exited once, stores repairable.",
+            "CPython default SIGINT handler; Linux /proc thread states", "3/C17"),
     "C14": ("exploration", "event-log monitor during dry runs + differential execution of the returned physical plan vs the real run from a restored state",
             "Held on the sampled states: dry runs stamped only modified-time queries and changed nothing; executing all nodes of the returned plan alone gave the same event multiset, store contents and output as the real run.",
             "snapshot/restore of in-memory stores", "3/C14"),
